@@ -59,8 +59,14 @@ pub fn run_op(st: &mut State, p: &[&str]) -> String {
         ("lease", Some(pl)) => show(pl.lease()),
         ("droplease", Some(pl)) => b(pl.drop_lease(p[2].parse().unwrap(), p[3] == "1")),
         ("release", Some(pl)) => {
-          pl.release(p[2].parse().unwrap());
-          "ok".into()
+          // the worker only releases buffers it was given: one that a session still holds a lease on is not its to release
+          let id: u16 = p[2].parse().unwrap();
+          if pl.leased(id) {
+            "held".into()
+          } else {
+            pl.release(id);
+            "ok".into()
+          }
         }
         ("state", Some(pl)) => {
           let (free, used) = pl.state();
